@@ -15,7 +15,8 @@ RULE = ("all templates with up to 4 items over {atom, sub-list, unquote, splice,
         "unquote or splice")
 ASSUMPTIONS = []
 
-ITEMS = ["a", "1", '"s"', "(b c)", ",(tick 1)", ",x", ",@l0", ",@l1", ",@l3", "',x", "(d ,x)", "(e ,@l3 f)", ",@(progn (tick 2) l3)", "`(n ,x)", ",(list x x)", "()"]
+ITEMS = ["a", "1", '"s"', "(b c)", ",(tick 1)", ",x", ",@l0", ",@l1", ",@l3", "',x", "(d ,x)", "(e ,@l3 f)", ",@(progn (tick 2) l3)", "`(n ,x)", ",(list x x)", "()",
+         "(b . ,x)", "(b ',x)", "(c '(d ,@l3))", "(g (h . ,l3))", "(k `(m ,x))", "((n) . ,x)", "(lit 1 2)", "(o (p ',x) q)", "(r . ,(tick 3))"]
 
 def construction(items, tail):
     """the list/cons/append construction equivalent to the template"""
@@ -28,6 +29,10 @@ def construction(items, tail):
         elif it == "(e ,@l3 f)": parts.append("(list (append '(e) l3 '(f)))")
         elif it == "`(n ,x)": return None
         elif it == ",(list x x)": parts.append("(list (list x x))")
+        elif it == "(b . ,x)": parts.append("(list (cons 'b x))")
+        elif it == "(g (h . ,l3))": parts.append("(list (list 'g (cons 'h l3)))")
+        elif it == "((n) . ,x)": parts.append("(list (cons '(n) x))")
+        elif it in ("(b ',x)", "(c '(d ,@l3))", "(k `(m ,x))", "(o (p ',x) q)", "(r . ,(tick 3))"): return None
         else: parts.append("'(%s)" % it)
     t = "nil" if tail is None else tail[1:] if tail.startswith(",") else "'" + tail
     return "(append %s %s)" % (" ".join(parts), t)
